@@ -11,6 +11,7 @@ mod c01;
 mod c15;
 mod sm;
 mod smgen;
+mod c13;
 mod c19;
 mod c20;
 
@@ -151,6 +152,17 @@ fn main() {
             header = c01::HEADER;
             ctype = c01::CTYPE;
             runner = c01::RUNNER;
+        }
+        "C13" => {
+            if args.replay.is_none() {
+                inputs.extend(c13::generate(&mut rng, args.n, args.thorough));
+            }
+            for i in &inputs {
+                w.push(c13::run_input(i));
+            }
+            header = c13::HEADER;
+            ctype = c13::CTYPE;
+            runner = c13::RUNNER;
         }
         "C19" => {
             if args.replay.is_none() {
